@@ -32,7 +32,7 @@ type c19Scenario struct {
 var c19Success = []string{"ok-plain", "ok-empty", "ok-whitespace", "ok-big", "ok-nonnumeric", "ok-float"}
 var c19Failure = []string{"exit-code", "exit-code-output", "exit-code-stderr", "self-kill", "not-executable", "bad-format", "dangling-interpreter",
 	"vanishing", "sleep-past-deadline", "ignore-sigterm", "grandchild-holds-stdout", "grandchild-and-parent-sleep", "print-then-sleep", "missing-file",
-	"path-through-regular-file", "symlink-loop", "name-too-long", "no-shebang-sleeps", "no-shebang-quick", "directory"}
+	"path-through-regular-file", "symlink-loop", "name-too-long", "no-shebang-sleeps", "no-shebang-quick", "directory", "endless-output"}
 
 func genC19(t *rapid.T) c19Scenario {
 	sc := c19Scenario{TimeoutMs: rapid.SampledFrom([]int{200, 500, 1000, 2000}).Draw(t, "timeoutMs")}
@@ -122,6 +122,8 @@ func c19Script(dir string, sc c19Scenario) (path string, raw string, success boo
 		body += "sleep " + long + " &\nsleep " + long + "\n"
 	case "print-then-sleep":
 		body += "echo 5\nsleep " + long + "\n"
+	case "endless-output":
+		body += "yes 1234567890\n" // writes as fast as it can until it is killed
 	}
 	_ = os.WriteFile(path, []byte(body), mode)
 	_ = os.Chmod(path, mode)
